@@ -22,6 +22,18 @@ void h_tlsconn_reset(void) {
     h_tlsconn_seen = 0;
 }
 const char *h_tlsconn_attributed(void) { return h_tlsconn_seen ? (h_tlsconn_name ? h_tlsconn_name : "?") : NULL; }
+/* tlsdial: the proxy's own TLS connection to a home server, by the real tlsconnect (with a time limit, so that a refused peer makes it
+   give up after its paced attempts) */
+int h_tlsconnect(struct server *server, int timeout) {
+    int r;
+    if (handle != RAD_TLS)
+        tlsinit(RAD_TLS);
+    if (!srcres)
+        tlssetsrcres();
+    r = tlsconnect(server, timeout, 0);
+    cleanup_connection(server);
+    return r;
+}
 void *h_tlsservernew(void *arg) {
     if (handle != RAD_TLS)
         tlsinit(RAD_TLS); /* the transport's own number (what find_clconf is asked for) */
